@@ -103,3 +103,13 @@ Proof.
     + unfold float_series_reindex, fill_for. simpl. rewrite Hdt, Hmf. reflexivity.
     + unfold float_assign_cast. rewrite Hd, Hdt. rewrite (reindexed_data_all_cf _ _ _ Hcf). rewrite Hdata. reflexivity.
 Qed.
+
+(* any other pandas index under the plain model (position of the label): old_span_ok for every list of labels *)
+Theorem plain_index_old_span_ok (ls labels : list label) :
+  old_span_ok (fun l => plain_get_loc l) (fun l => plain_contains l) (SPandas ls) labels.
+Proof.
+  apply old_span_ok_intro.
+  - exact (plain_span_ok ls).
+  - intros p _. exact I.
+  - intros ls' E p _. inversion E; subst. rewrite plain_contains_spec. destruct (pos p ls'); reflexivity.
+Qed.
